@@ -108,10 +108,10 @@ const URIS: &[&str] = &[
 
 pub fn run(cfg: &RunCfg) -> Ctx {
     let mut all = Ctx::new();
-    all.merge(par_cases(cfg, "intercept", cfg.n(60_000, 16 * 120_000), || (), |_, rng, ctx, _| case(rng, ctx)));
+    all.merge(par_cases(cfg, "intercept", cfg.n(60_000, 16 * 1_200_000), || (), |_, rng, ctx, _| case(rng, ctx)));
     #[cfg(feature = "full")]
     {
-        all.merge(par_cases(cfg, "e2e", cfg.n(3000, 16 * 20_000), || (), |_, rng, ctx, i| e2e_case(rng, ctx, i)));
+        all.merge(par_cases(cfg, "e2e", cfg.n(3000, 16 * 200_000), || (), |_, rng, ctx, i| e2e_case(rng, ctx, i)));
         for c in 0..3 {
             for s in 0..3 {
                 all.floor(&format!("e2e.client{}.server{}", c, s), 3);
